@@ -631,143 +631,17 @@ func edgeWiring(c *an.Ctx, s *sched, rule string) {
 			c.Bad(rule, an.Short(fn)+":replace "+name, st.Pos(), "edge map %s of an existing graph is replaced", name)
 		})
 	}
-	var rec *ssa.Function
-	for _, u := range updates {
-		if rec == nil {
-			rec = u.fn
-		} else if rec != u.fn {
-			c.Bad(rule, an.Short(u.fn)+":update "+u.field, u.mu.Pos(), "edge map %s is also written outside the edge recorder %s", u.field, an.Short(rec))
-		}
-	}
-	if rec == nil {
+	if len(updates) == 0 {
 		c.Und(rule, "scheduler:edge-recorder", add.Pos(), "no function updates ExecutionGraph.from/to")
 		return
 	}
-	c.Anchor("edge recorder", an.Short(rec))
-	// recorder shape: from[a] = append(from[a], b); to[b] = append(to[b], a), on every path to a nil return
-	if len(rec.Params) < 3 {
-		c.Und(rule, an.Short(rec)+":shape", rec.Pos(), "edge recorder does not take (graph, from, to)")
-		return
+	// who may update the edge maps: only code that runs as part of AddStage
+	reach := p.Reach([]*ssa.Function{add}, func(e an.CallEdge) bool { return an.InModule(e.Callee) })
+	for _, u := range updates {
+		_, ok := reach[u.fn]
+		c.Check(ok, rule, an.Short(u.fn)+":update "+u.field, u.mu.Pos(), "the edge map "+u.field+" is updated as part of AddStage", "the edge map "+u.field+" is also written by "+an.Short(u.fn)+", outside AddStage")
 	}
-	a, b := rec.Params[1], rec.Params[2]
-	for _, want := range []struct {
-		field    string
-		key, val *ssa.Parameter
-	}{{"from", a, b}, {"to", b, a}} {
-		found := false
-		for _, u := range updates {
-			if u.fn != rec || u.field != want.field {
-				continue
-			}
-			keyOK := an.SameValue(u.mu.Key, want.key)
-			valOK := false
-			// value: append(<lookup of same map at same key>, val)
-			for _, r := range an.ResolveAll(u.mu.Value) {
-				call, ok := r.(*ssa.Call)
-				if !ok {
-					continue
-				}
-				if bi, ok := call.Call.Value.(*ssa.Builtin); !ok || bi.Name() != "append" {
-					continue
-				}
-				baseOK := false
-				if lk, ok := an.Resolve(call.Call.Args[0]).(*ssa.Lookup); ok {
-					if an.AccessPath(lk.X).LastField() == want.field && an.SameValue(lk.Index, want.key) {
-						baseOK = true
-					}
-				}
-				// appended slice literal [val]
-				elemOK := false
-				if sl, ok := call.Call.Args[1].(*ssa.Slice); ok {
-					if al, ok := sl.X.(*ssa.Alloc); ok {
-						if refs := al.Referrers(); refs != nil {
-							for _, rr := range *refs {
-								if ia, ok := rr.(*ssa.IndexAddr); ok {
-									for _, st := range *ia.Referrers() {
-										if sto, ok := st.(*ssa.Store); ok && an.SameValue(sto.Val, want.val) {
-											elemOK = true
-										}
-									}
-								}
-							}
-						}
-					}
-				}
-				if baseOK && elemOK {
-					valOK = true
-				}
-			}
-			// unconditional: the update dominates every nil-returning exit
-			uncond := u.mu.Block() == rec.Blocks[0] || u.mu.Block().Dominates(rec.Blocks[len(rec.Blocks)-1])
-			for _, ret := range an.Returns(rec) {
-				if !an.Dominates(u.mu, ret) {
-					uncond = false
-				}
-			}
-			if keyOK && valOK && uncond {
-				found = true
-			} else {
-				c.Bad(rule, an.Short(rec)+":update "+want.field, u.mu.Pos(), "edge recorder's update of %s is not %s[%s] = append(%s[%s], %s) on every path (key ok=%v, value ok=%v, unconditional=%v)",
-					want.field, want.field, want.key.Name(), want.field, want.key.Name(), want.val.Name(), keyOK, valOK, uncond)
-				found = true
-			}
-		}
-		if !found {
-			c.Bad(rule, an.Short(rec)+":update "+want.field, rec.Pos(), "edge recorder never records the edge in %s", want.field)
-		} else {
-			c.OK(rule, an.Short(rec)+":records "+want.field, rec.Pos(), "%s[%s] ∪= {%s} on every path", want.field, want.key.Name(), want.val.Name())
-		}
-	}
-	// AddStage: every iteration over DependsOn reaches the recorder with (dep, stage.Name)
-	var depLoop *an.Loop
-	for _, l := range an.Loops(add) {
-		op := l.RangeOperand()
-		if op != nil && an.AccessPath(op).LastField() == "DependsOn" {
-			depLoop = l
-		}
-	}
-	if depLoop == nil {
-		c.Und(rule, an.Short(add)+":loop", add.Pos(), "AddStage does not range over stage.DependsOn")
-		return
-	}
-	_, elems := depLoop.RangeKeyValue()
-	ex := &an.Explorer{P: p, NoReturn: noReturn}
-	depLoop.Bound(ex)
-	ex.Effect = func(in ssa.Instruction, st *an.State) string {
-		call, ok := in.(*ssa.Call)
-		if !ok {
-			return ""
-		}
-		for _, callee := range p.Callees(&call.Call) {
-			if callee == rec {
-				args := call.Call.Args
-				depOK := false
-				for _, e := range elems {
-					if an.SameValue(args[1], e) {
-						depOK = true
-					}
-				}
-				nameAP := an.AccessPath(args[2])
-				nameOK := nameAP.LastField() == "Name" && len(add.Params) > 1 && an.SameValue(nameAP.Base, add.Params[1])
-				if depOK && nameOK {
-					return "edge(dep,stage.Name)"
-				}
-				return "edge(" + an.Prov(args[1]) + "," + an.Prov(args[2]) + ")"
-			}
-		}
-		return ""
-	}
-	outs := ex.Run(add, depLoop.BodyEntry(), depLoop.Header, nil)
-	bad := false
-	for _, o := range outs {
-		if len(o.Effects) == 0 || o.Effects[0] != "edge(dep,stage.Name)" {
-			bad = true
-			c.Bad(rule, an.Short(add)+":every-dep", add.Pos(), "a path through one iteration over DependsOn ends (%s) with edge effects %v instead of recording (dep, stage.Name) first", o.End, o.Effects)
-		}
-	}
-	if !bad && len(outs) > 0 {
-		c.OK(rule, an.Short(add)+":every-dep", add.Pos(), "all %d paths of an iteration record the edge (dep, stage.Name) before anything else", len(outs))
-	}
+	edgeRecords(c, rule)
 	// the loop covers the whole slice: plain range (no early exit besides error returns) — exits other than header must be returns with non-nil error
 	// accessors
 	for _, acc := range []struct{ name, field string }{{"To", "to"}, {"From", "from"}} {
